@@ -18,6 +18,7 @@ import (
 	"sync/atomic"
 	"syscall"
 	"time"
+	"unicode"
 	"verif/shim/globals"
 )
 
@@ -336,9 +337,17 @@ func WorkerMain(id, tier, unit, statePath, outPath string, skip []uint64, only i
 	if diff := globals.Diff(before, globals.Snapshot()); len(diff) > 0 {
 		var changed []string
 		for _, k := range diff {
-			if !callerConfigured[k] {
-				changed = append(changed, k)
+			// judged: exported variables (what other packages and every later caller see by name). An
+			// unexported variable that changes may be a lazily built table or a memo: counted, not judged.
+			name := k[strings.LastIndex(k, ".")+1:]
+			if callerConfigured[k] {
+				continue
 			}
+			if name == "" || !unicode.IsUpper([]rune(name)[0]) {
+				c.Count("unexported_package_variables_changed(not judged)", 1)
+				continue
+			}
+			changed = append(changed, k)
 		}
 		if len(changed) > 0 {
 			c.Violation(id+" an operation changed package-level state of the library that later calls depend on: "+strings.Join(changed, ", "), map[string]any{"unit": unit, "variables": changed})
